@@ -63,7 +63,7 @@ def gen(rng, tier):
     worker_name = "w2" if transport == "proxy" else "w1"
     for i in range(n):
         kind = rng.choice(["ret", "ret", "raise", "raise", "sysexit", "int", "block", "raise_eof", "recv_closed",
-                           "raise_other"])
+                           "raise_other", "ret_cb", "ret_cb"])
         label = f"b{i}"
         B = new_actor("w", label)
         bodies.append((B, kind, True))
@@ -74,6 +74,11 @@ def gen(rng, tier):
         if kind == "ret":
             if rng.random() < 0.5:
                 add(B, ["yield", rng.randrange(1, 4)], "ok")
+            add(0, ["waitclose", label, 600], "ok")
+        elif kind == "ret_cb":
+            # the body leaves a callback (with endmarker) on its own channel: the automatic close at its end runs
+            # the endmarker callback in the main thread, just before the main thread is released
+            add(B, ["setcb", label, True, None], "ok")
             add(0, ["waitclose", label, 600], "ok")
         elif kind == "raise":
             add(B, ["raise", "body boom"], "raised")
@@ -120,7 +125,7 @@ def gen(rng, tier):
     add(0, ["hasreceiver"], "true")
     add(0, ["terminate", 10.0], "any")
     return {"gateways": specs, "actors": actors, "expect": {str(k): val for k, val in expect.items()},
-            "knobs": knobs, "strategy": L.gen_strategy(rng), "preempt": L.gen_preempt(rng, 3000), "preempt_at": L.gen_preempt_at(rng, ["_local_schedulexec", "executetask", "_executetask_finished", "_try_send_to_primary_thread", "integrate_as_primary_thread", "spawn", "_perform_spawn", "run"]), "faults": faults,
+            "knobs": knobs, "strategy": L.gen_strategy(rng), "preempt": L.gen_preempt(rng, 3000), "preempt_at": L.gen_preempt_at(rng, ["_local_schedulexec", "executetask", "_executetask_finished", "_try_send_to_primary_thread", "integrate_as_primary_thread", "spawn", "_perform_spawn", "run", "close", "_no_longer_opened"]), "faults": faults,
             "transport": transport, "gwi": gwi, "bodies": bodies, "errtext_limit": 3000}
 
 
